@@ -1,0 +1,13 @@
+//go:build verif
+
+package codecparams
+
+// Contracts for the contract-based deductive verification in /verif (engine: gvc).
+// Comment-only: with the tag off this file is not compiled, with it on it adds no code.
+
+// Marshal is used by the muxer as an opaque pure function of the codec (no contract on its text yet:
+// the parameter-set parsers it calls are in mediacommon, outside the verified code).
+//@ func Marshal
+//@   props C16
+//@   nosafety
+//@ end
